@@ -1152,6 +1152,62 @@ class Program:
                 out.append((b, s))
         return out
 
+    # ---- closure captures -------------------------------------------------
+    def creation_sites(self, closure_body):
+        """aggregate sites (in other bodies) that create this closure / coroutine."""
+        out = []
+        name = closure_body.name
+        parent = name.rsplit("::", 1)[0] if "::" in name else None
+        cands = self.bodies.get(parent, []) if parent else []
+        for b in cands:
+            for s in b.assigns(include_cleanup=False):
+                r = s.node["r"]
+                if r["r"] == "agg" and r.get("def") and norm(r["def"]) == name:
+                    out.append(s)
+        return out
+
+    def capture_origins(self, closure_body, idx):
+        """origins (in the creating body) of captured upvar number idx; env of the creator resolved too."""
+        out = set()
+        for s in self.creation_sites(closure_body):
+            ops = s.node["r"]["ops"]
+            if idx < len(ops):
+                for o in s.body.origins(ops[idx], s):
+                    out.add(self.resolve_env(s.body, o))
+        return frozenset(out)
+
+    def resolve_env(self, body, o, depth=0):
+        """rewrite ('proj', ('env',), ('f', i)) inside a closure origin to the creator's origin."""
+        if depth > 8 or not isinstance(o, tuple):
+            return o
+        if o[0] == "proj":
+            base = o[1]
+            if base == ("env",) and o[2][0] == "f" and str(o[2][1]).isdigit() and body.kind in ("Closure", "coroutine"):
+                caps = self.capture_origins(body, int(o[2][1]))
+                if len(caps) == 1:
+                    return ("captured", next(iter(caps)))
+                if caps:
+                    return ("captured", ("multi", tuple(sorted(caps, key=repr))))
+                return o
+            nb = self.resolve_env(body, base, depth + 1)
+            if nb is not base:
+                # ("captured", x) is transparent for further projections
+                if isinstance(nb, tuple) and nb and nb[0] == "captured":
+                    return ("proj", nb[1], o[2])
+                return ("proj", nb, o[2])
+            return o
+        return o
+
+    def resolved_origins(self, body, operand_or_place, site, place=False):
+        os_ = body.place_origins(operand_or_place, site) if place else body.origins(operand_or_place, site)
+        out = set()
+        for o in os_:
+            r = self.resolve_env(body, o)
+            if isinstance(r, tuple) and r and r[0] == "captured":
+                r = r[1]
+            out.add(r)
+        return frozenset(out)
+
     def impls_of(self, trait_pattern):
         pred = _mk_pred(trait_pattern)
         return [i for i in self.impls if i.get("trait") and pred(norm(i["trait"]))]
